@@ -374,6 +374,22 @@ func (ts *TermStore) Eq(a, b *Term) *Term {
 			return ts.Not(a)
 		}
 	}
+	if a.sort.K == SStr && (a.IsConst() || b.IsConst()) {
+		// a ciphertext / signature / key encoding produced by a modelled library never equals a literal of the program
+		// (negligible probability; stated assumption of the checks that use these stubs)
+		if o := a; true {
+			if a.IsConst() {
+				o = b
+			}
+			if o.op == OApp && neverLiteral[o.s] {
+				return ts.False()
+			}
+		}
+		// a string of known length differs from a constant of another length
+		if la, lb := ts.SLen(a), ts.SLen(b); la.IsConst() && lb.IsConst() && la.i != lb.i {
+			return ts.False()
+		}
+	}
 	if a.sort.K == SBV && a.sort.W == 64 && !(a.IsConst() && b.IsConst()) {
 		if ia, ok := ts.lenLike(a); ok {
 			if ib, ok := ts.lenLike(b); ok {
@@ -386,6 +402,9 @@ func (ts *TermStore) Eq(a, b *Term) *Term {
 	}
 	return ts.mk(OEq, BoolSort, 0, 0, "", a, b)
 }
+
+var neverLiteral = map[string]bool{"ecies.enc": true, "gcm.seal": true, "vss.sealed": true, "tbls.psig": true, "gob.prishare": true,
+	"scrypt32": true, "kyber.scalar.enc": true, "schnorr.R": true, "schnorr.s": true}
 
 func (ts *TermStore) Ite(c, a, b *Term) *Term {
 	if c.IsConst() {
@@ -817,6 +836,14 @@ func (ts *TermStore) SLen(a *Term) *Term {
 			return ts.Int(64)
 		case "uuidstr":
 			return ts.Int(36)
+		case "kyber.scalar.enc", "scrypt32":
+			return ts.Int(32) // a marshalled BLS12-381 scalar; a 32-byte derived key
+		case "schnorr.R":
+			return ts.Int(48) // a marshalled G1 point
+		case "schnorr.s":
+			return ts.Int(32)
+		case "gcm.seal":
+			return ts.IAdd(ts.SLen(a.args[2]), ts.Int(16)) // plaintext + tag
 		case "hex":
 			l := ts.SLen(a.args[0])
 			return ts.IAdd(l, l)
